@@ -42,6 +42,9 @@ class Stmts(FnCtx):
         if n is None or not n:
             return []
         k = n.get('kind')
+        if k in ('ExprWithCleanups', 'CXXBindTemporaryExpr') and kids(n) and kids(n)[0].get('kind') == 'CXXThrowExpr':
+            n = kids(n)[0]
+            k = 'CXXThrowExpr'
         m = getattr(self, 's_' + k, None)
         ln = self.loc(n)
         if m is None:
@@ -102,6 +105,7 @@ class Stmts(FnCtx):
                 # local class: register as a record (fields only)
                 self.lw.collect_record(d, self.f.qual + '::' + d.get('name', 'anon'))
                 self.lw.late_records.append(self.lw.records[d['id']])
+                self.lw.te.record_alias[d.get('name', 'anon')] = self.f.qual + '::' + d.get('name', 'anon')
             else:
                 self.err(d, 'declaration kind in a declaration statement')
         return out
